@@ -5,6 +5,16 @@ V = os.path.dirname(os.path.dirname(os.path.abspath(__file__)))
 ALL = ['C%02d' % i for i in range(1, 20)]
 
 CHECKS = {
+ 'C14': dict(
+   technique='static forward must-analysis (typestate) for the carried CR, pairing rules for the piece builders, exit rules for the boundary-matching state',
+   text='Decides the set-aside / replay discipline that chunk independence of the multipart parser rests on, for every path: cr_aside is overwritten only when no CR is owed (D4 found here, replayed and repaired by fix 66cffda), every builder to_str is followed by clear before reuse, every exit from the boundary state replays the stored pieces first and they are cleared only after the replay, the end-of-chunk delivery excludes exactly the set-aside CR, text parts become parameters with their own name and value. Not decided: byte-exact part contents and flag equality across chunkings.',
+   note='Values are not tracked.',
+   ref='§4.14'),
+ 'C15': dict(
+   technique='static path rules on the streaming key/value scanner and field assembler (delimiters per state, end-of-chunk store vs emit by path enumeration with feasibility pruning, finalisation order, builder pairing)',
+   text='Thin by design: equality with the reference split/decoding is a statement about values. Decided for every path: the scanner ends a key at =, separator or end of input and a value only at separator or end of input, hands [startpos,pos) to the assembler and restarts after the delimiter; a field cut by the end of a chunk is stored (once) and no pair is emitted, otherwise at most one pair per call; finalisation sets the complete flag before flushing; name and value are decoded when enabled.',
+   note='Thin claim: only the carry of a half-built field across calls and the delimiter structure are decided.',
+   ref='§4.15'),
  'C03': dict(
    technique='static abstract walk of every peek site with "no byte available" (finite evaluation of the branch conditions on next_byte = -1 / chunk exhausted) reporting commit actions reachable before the function defers; carry-protocol pairing rules; enumeration of direct look-ahead conditions',
    text='Decides the mechanism that makes chunk boundaries invisible, for every path: all 12 peek sites are classified (defer / closed-only / commits); a site that commits at end of chunk is a violation unless its two outcomes agree on well-formed input (tabled with reasons) - F1 and D5 are recorded findings; a byte accumulated without being consumed is never followed by HTP_DATA; a consolidated line is cleared (or handed on / rewound) before OK; carried bytes are appended at the fill offset; the 8 direct look-ahead conditions are reviewed heuristics and a new one alarms. Not decided: equality of the two parses as values.',
